@@ -1141,6 +1141,27 @@ fn gen_c16(g: &mut G) {
     }
     let bytelevel = !kind.ends_with("core") && !is_block(&kind);
     let mul = if kind == "cfb8" { 2 } else { 1 };
+    if let Some(bits) = ctr_bits(&kind) {
+        if bits <= 64 && !kind.ends_with("core") && g.rng.chance(1, 4) {
+            // clone close to the end of the keystream: both must hit the limit at the same place
+            g.new_obj("o", f, &kind, dir, 0, iv.clone(), json!({"rand":0}), "inner");
+            let k = g.rng.range(1, 3) as i64;
+            g.cmds.push(json!({"op":"seek","o":"o","t":"u128","p":{"end": -(k * bs as i64)}}));
+            let n0 = g.rng.below(bs);
+            g.bytes("o", n0, false);
+            g.cmds.push(json!({"op":"clone","o":"c","from":"o"}));
+            for who in ["c", "o"] {
+                g.op("rem", who);
+                g.cmds.push(json!({"op":"pos","o":who,"t":"u128"}));
+                let left = k as usize * bs - n0;
+                let n = *g.rng.pick(&[left, left + 1, left - 1, left + bs]);
+                g.bytes(who, n, false);
+                g.bytes(who, 1, false);
+                g.op("rem", who);
+            }
+            return;
+        }
+    }
     // an unrelated live instance under another key, used in between
     let other_kind = *g.rng.pick(&["cbc", "cfb", "ofbblk"]);
     g.new_obj("z", f, other_kind, "enc", 5, json!({"rand":9}), json!({"rand":9}), "inner");
@@ -1163,12 +1184,33 @@ fn gen_c16(g: &mut G) {
     let p2 = g.composition(n2, if bytelevel { (2 * bs).max(n2 / 4) } else { w + 2 }, bytelevel);
     let p3 = g.composition(n3, if bytelevel { (2 * bs).max(n3 / 4) } else { w + 2 }, bytelevel);
     let (mut i2, mut i3) = (0, 0);
+    let seekable = ctr_bits(&kind).is_some() && !kind.ends_with("core");
     while i2 < p2.len() || i3 < p3.len() {
         let pick_o = i3 >= p3.len() || (i2 < p2.len() && g.rng.coin());
         let (o, k) = if pick_o { i2 += 1; ("o", p2[i2 - 1]) } else { i3 += 1; ("c", p3[i3 - 1]) };
         if bytelevel { g.bytes(o, k, false) } else { let m = g.rng.coin(); g.blocks(o, k, m, false); g.op("export", o); }
         if g.rng.chance(1, 3) {
             g.blocks("z", 1, false, false);
+        }
+        // a clone must also REPORT what the original would: position and remaining blocks
+        if ks && g.rng.chance(1, 2) {
+            let who = if g.rng.coin() { "o" } else { "c" };
+            if seekable {
+                let t = *g.rng.pick(&SEEK_TYPES);
+                g.cmds.push(json!({"op":"pos","o":who,"t":t}));
+            }
+            g.op("rem", who);
+        }
+    }
+    if seekable && !seeked {
+        // ... and seek like it: back into the region that the fresh replay r2 covers linearly
+        let span = h1 + n3;
+        if span > 0 {
+            let p = g.rng.below(span);
+            g.cmds.push(json!({"op":"seek","o":"c","t":"u64","p":p.to_string()}));
+            let n = g.rng.below(span - p + 1);
+            g.bytes("c", n, false);
+            g.cmds.push(json!({"op":"pos","o":"c","t":"u128"}));
         }
     }
     if !seeked {
